@@ -29,7 +29,8 @@ CR == 13
 IsLetter(c) == (c >= 65 /\ c <= 90) \/ (c >= 97 /\ c <= 122)
 IsDigit(c) == c >= 48 /\ c <= 57
 IsWord(c) == IsLetter(c) \/ IsDigit(c) \/ c = 95
-IsSpace(c) == c \in {SP, TAB, LF, CR}
+\* "the amount and kind of whitespace": the Unicode property White_Space (what char::is_whitespace goes by), not only the ASCII blanks
+IsSpace(c) == (c >= 9 /\ c <= 13) \/ c \in {SP, 133, 160, 5760, 8232, 8233, 8239, 8287, 12288} \/ (c >= 8192 /\ c <= 8202)
 Lower(c) == IF c >= 65 /\ c <= 90 THEN c + 32 ELSE c
 Upper(c) == IF c >= 97 /\ c <= 122 THEN c - 32 ELSE c
 LowerS(s) == [i \in 1..Len(s) |-> Lower(s[i])]
@@ -42,10 +43,12 @@ EmptyComment == <<45, 45>>                           \* "--" directly followed b
 Separators == << <<>>, <<SP>>, <<TAB>>, <<LF>>, <<CR, LF>>, <<SP, SP>>, <<SP>> \o Comment \o <<LF>>, Comment \o <<LF>>, <<LF>> \o Comment \o <<CR, LF>>,
                  <<SP>> \o EmptyComment \o <<LF>>, EmptyComment \o <<LF>>, <<SP>> \o EmptyComment \o <<CR, LF>>,
                  \* 13-15: comments holding a backslash (a quoted regex), a backslash right before the line break, non-ASCII text -- all inert
-                 <<SP, 45, 45, 32, 39, 92, 100, 43, 39, LF>>, <<SP, 45, 45, 32, 99, 92, LF>>, <<SP, 45, 45, 32, 233, 8364, 32, 99, LF>> >>
+                 <<SP, 45, 45, 32, 39, 92, 100, 43, 39, LF>>, <<SP, 45, 45, 32, 99, 92, LF>>, <<SP, 45, 45, 32, 233, 8364, 32, 99, LF>>,
+                 \* 16-22: whitespace that is not one of the ASCII blanks: VT, FF, NO-BREAK SPACE, NEL, LINE SEPARATOR, IDEOGRAPHIC SPACE, EM SPACE + tab
+                 <<11>>, <<12>>, <<160>>, <<133>>, <<8232>>, <<12288>>, <<8195, TAB>> >>
 SepNone == 1
 SepSpace == 2
-HasComment(k) == k >= 7
+HasComment(k) == k >= 7 /\ k <= 15
 
 \* two lexemes that would merge (or start a comment, or form another operator) when written without separation
 Wordy(l) == l.c \in {"kw", "name", "id", "num"} \/ (l.c = "str" /\ FALSE)
